@@ -775,6 +775,11 @@ def grammar_pool(rng: random.Random, n_random: int, n_builtin: int, bundled: boo
         for tag, v in (("a", va), ("b", vb)):
             if G.well_formed(v):
                 pool.append({"name": f"sibling:{j}:{tag}", "text": G.show_grammar(v), "calls": [("r", t, 0) for t in texts_]})
+    # settings of the regular-expression engine are process-wide (default version, flags, caches): literals whose matching
+    # depends on how case folding is configured, so that a setting leaked by something done earlier shows in a later parser
+    pool.append({"name": "fold-sensitive", "text": 'street = { ^"stra\u00dfe" ~ " " ~ ASCII_DIGIT+ }\nword = { ^"fi" ~ ^"x" }',
+                 "calls": [("street", "STRASSE 12", 0), ("street", "strasse 1", 0), ("street", "stra\u00dfe 1", 0), ("street", "STRA\u00dfE 2", 0),
+                           ("street", "xx strasse 3", 3), ("word", "FIX", 0), ("word", "fiX", 0)]})
     if bundled:
         sc = E.suite_cases()
         for gfile, gtext in sorted(E.bundled_grammars().items()):
@@ -1193,6 +1198,24 @@ def run(out: Outcome) -> None:
     pool = grammar_pool(rng, 60 if thorough else 16, 40 if thorough else 12, True)
     n_hist = 1600 if thorough else 160
     hists = [gen_history(random.Random(rng.randrange(1 << 30)), pool, rng.choice([8, 12, 16, 24] if thorough else [8, 12, 16])) for _ in range(n_hist)]
+    # directed histories: something is loaded, optimized, generated and executed first; afterwards a parser for the
+    # fold-sensitive grammar is built and used - process-wide settings leaked by the first part would show in the second
+    fold = next((g for g in pool if g["name"] == "fold-sensitive"), None)
+    if fold:
+        others = [g for g in pool if g["name"] != "fold-sensitive"]
+        for j in range(6 if thorough else 3):
+            g0 = others[(j * 7) % len(others)]
+            steps = [{"op": "from_grammar", "id": "p1", "g": 0, "opt": "default" if j % 2 == 0 else "none"}]
+            if g0["calls"]:
+                r_, t_, k_ = g0["calls"][0]
+                steps.append({"op": "parse", "p": "p1", "rule": r_, "input": [ord(c) for c in t_], "k": k_})
+            steps.append({"op": "generate", "id": "x1", "p": "p1"})
+            if g0["calls"]:
+                steps.append({"op": "parse_gen", "x": "x1", "rule": r_, "input": [ord(c) for c in t_], "k": k_})
+            steps.append({"op": "from_grammar", "id": "p2", "g": 1, "opt": "none" if j % 3 == 0 else "default"})
+            for r2, t2, k2 in fold["calls"]:
+                steps.append({"op": "parse", "p": "p2", "rule": r2, "input": [ord(c) for c in t2], "k": k2})
+            hists.append({"texts": [g0["text"], fold["text"]], "steps": steps, "groups": [g0["name"], "fold-sensitive", "directed"]})
 
     # ---- stages ii + iii: every history in its own fresh process, monitored
     results = run_jobs([{"kind": "history", "texts": h["texts"], "steps": h["steps"]} for h in hists])
